@@ -82,7 +82,7 @@ def register(reg):
     @reg.contract
     class FwdInit(Contract):
         key = FWD + ".__init__"
-        props = ("C10", "C11")
+        props = ("C10", "C11", "C09")
         params = {"proxy_headers": "seq:hdr", "keepalive_expiry": "opt:real", "network_backend": "ref:" + NB,
                   "socket_options": "val", "proxy_ssl_context": "val"}
 
@@ -98,6 +98,9 @@ def register(reg):
             return [
                 ("inner_connection_is_to_the_proxy", ("C10", "C11"), z3.And(F(c, s, "FWD._connection") == d["conn"].t, d["origin"].t == c.args["proxy_origin"].t) if ok else False),
                 ("inner_connection_uses_proxy_tls_context", ("C10",), e.to_val(st, d.get("ssl_context", NONE)).t == c.args["proxy_ssl_context"].t if ok else False),
+                ("inner_connection_gets_keepalive_expiry_and_backend", ("C09", "C10"), z3.And(
+                    e.z_bool(e.eq(st, e.coerce(st, d.get("keepalive_expiry", NONE), "opt:real"), c.args["keepalive_expiry"])),
+                    d["network_backend"].t == c.args["network_backend"].t) if ok and "network_backend" in d else False),
                 ("stores_origins_and_headers", ("C10", "C11"), z3.And(F(c, s, "FWD._proxy_origin") == c.args["proxy_origin"].t, F(c, s, "FWD._remote_origin") == c.args["remote_origin"].t, F(c, s, "FWD._proxy_headers") == c.args["proxy_headers"].t)),
             ]
 
@@ -123,7 +126,7 @@ def register(reg):
                     ("forwarded_method_is_callers", ("C11", "C03"), e.coerce(st, d["method"], "bytes").t == F(c, req, "Request.method")),
                     ("forwarded_target_is_absolute_url", ("C11",), F(c, url, "URL.target") == absolute),
                     ("forwarded_to_the_proxy_origin", ("C11", "C10"), z3.And(F(c, url, "URL.scheme") == F(c, po, "Origin.scheme"), F(c, url, "URL.host") == F(c, po, "Origin.host"), c.new(url, "URL.port").val.t == F(c, po, "Origin.port"), z3.Not(c.new(url, "URL.port").none))),
-                    ("proxy_headers_merged_beneath_callers", ("C11",), e.coerce(st, d["headers"], "seq:hdr").t == merge_spec(F(c, s, "FWD._proxy_headers"), F(c, req, "Request.headers"))),
+                    ("proxy_headers_merged_beneath_callers", ("C11", "C03"), e.coerce(st, d["headers"], "seq:hdr").t == merge_spec(F(c, s, "FWD._proxy_headers"), F(c, req, "Request.headers"))),
                     ("forwarded_body_is_callers_stream", ("C11", "C03"), e.to_val(st, d["content"]).t == F(c, req, "Request.stream")),
                     ("forwarded_extensions_are_callers", ("C11", "C16"), e.to_val(st, d["extensions"]).t == F(c, req, "Request.extensions")),
                 ]
@@ -246,7 +249,7 @@ def register(reg):
     @reg.contract
     class TunInit(Contract):
         key = TUN + ".__init__"
-        props = ("C10", "C11")
+        props = ("C10", "C11", "C09")
         params = {"proxy_headers": "seq:hdr", "keepalive_expiry": "opt:real", "network_backend": "ref:" + NB, "socket_options": "val",
                   "proxy_ssl_context": "val", "ssl_context": "val", "http1": "bool", "http2": "bool"}
 
@@ -262,11 +265,15 @@ def register(reg):
             return [
                 ("inner_connection_is_to_the_proxy", ("C10", "C11"), z3.And(F(c, s, "TUN._connection") == d["conn"].t, d["origin"].t == c.args["proxy_origin"].t) if ok else False),
                 ("inner_connection_uses_proxy_tls_context", ("C10",), e.to_val(st, d.get("ssl_context", NONE)).t == c.args["proxy_ssl_context"].t if ok else False),
+                ("inner_connection_gets_keepalive_expiry_and_backend", ("C09", "C10"), z3.And(
+                    e.z_bool(e.eq(st, e.coerce(st, d.get("keepalive_expiry", NONE), "opt:real"), c.args["keepalive_expiry"])),
+                    d["network_backend"].t == c.args["network_backend"].t) if ok and "network_backend" in d else False),
                 ("starts_unconnected", ("C11",), z3.Not(F(c, s, "TUN._connected"))),
                 ("stores_config", ("C10", "C11"), z3.And(
                     F(c, s, "TUN._proxy_origin") == c.args["proxy_origin"].t, F(c, s, "TUN._remote_origin") == c.args["remote_origin"].t,
                     F(c, s, "TUN._proxy_headers") == c.args["proxy_headers"].t, F(c, s, "TUN._ssl_context") == c.args["ssl_context"].t,
                     F(c, s, "TUN._http1") == c.args["http1"].t, F(c, s, "TUN._http2") == c.args["http2"].t)),
+                ("stores_keepalive_expiry", ("C09",), e.z_bool(e.eq(st, c.new(s, "TUN._keepalive_expiry"), c.args["keepalive_expiry"]))),
             ]
 
     @reg.contract
@@ -331,7 +338,7 @@ def register(reg):
                         resp = prior[-1].data.get("result")
                         inits2 = c.events("H11.__init__") + c.events("H2.__init__")
                         status = F(c, resp, "Response.status") if resp is not None else z3.IntVal(0)
-                        out.append(("origin_request_only_after_2xx", ("C11",), z3.And(status >= 200, status <= 299) if resp is not None else False))
+                        out.append(("origin_request_only_after_2xx", ("C11", "C10"), z3.And(status >= 200, status <= 299) if resp is not None else False))
                         out.append(("origin_request_only_inside_the_tunnel", ("C11", "C10"), z3.And(z3.BoolVal(len(inits2) == 1), ev.data["conn"].t == inits2[-1].data["conn"].t) if len(inits2) == 1 else False))
             if ev.name == "net.start_tls":
                 d = ev.data
